@@ -331,6 +331,20 @@ def gen_c20(ctx):
                        {"op": "uniq", "seed": n, "even_empty": True}, {"op": "verify", "sweep": uniq == 0}, {"op": "uniq", "seed": n + 1, "even_empty": True}]
                 plans.append({"id": i, "focus": "C20", "build": "san", "universe": u, "faults": {}, "ops": ops})
                 i += 1
+    # several modules that go by the same four-character library hash, each with its own unique-name table
+    for n in range(12 if not thorough else 120):
+        rng = run_rng(ctx.seed, NAME + "/c20samehash", n)
+        k = rng.choice([2, 2, 3, 4])
+        u = {"seed": rng.next(), "k": k, "size": rng.choice([3, 5, 8]), "shared": rng.below(3), "minors": [3] * k, "alt": False}
+        hashes = [rng.choice(["HHHH", "HHHH", "HHHH", "JJJJ"]) for _ in range(k)]
+        ops = []
+        for li in rng.shuffle(list(range(k))):
+            ops.append({"op": "reg_mod", "lib": li, "range": True, "ident": "match", "uniq": rng.choice([0, 1, 3, 6, 50]), "fptrs": rng.choice([None, 0]), "hash": hashes[li]})
+            if rng.chance(1, 3):
+                ops.append({"op": "uniq", "seed": n, "even_empty": True})
+        ops += [{"op": "uniq", "seed": n, "even_empty": True}, {"op": "verify", "sweep": False}, {"op": "uniq", "seed": n + 1, "even_empty": True}]
+        plans.append({"id": i, "focus": "C20", "build": "san", "universe": u, "faults": {}, "ops": ops})
+        i += 1
     # every database written by the real interrogate, alone: totality sweep, counts vs entries (no phantom entries)
     for name in sorted(x for x in os.listdir(REAL_DIR) if x.endswith(".in")):
         for kind in ("san", "rel"):
